@@ -277,11 +277,16 @@ def correspondence(pid, name, imports, case_ty, model_fn, eqb, cases, shard=400,
         body.append("].")
         body.append(f"Definition ok (c : {case_ty}) : bool := {eqb} ({model_fn} (fst c)) (snd c).")
         body.append("Eval vm_compute in (bad_idx ok cases).")
-        rc, out = coq_eval(pid, f"{name}{base}", "\n".join(body), imports)
-        bad = parse_nat_list(out) if rc == 0 else None
-        if bad is None:
-            return base, None, out
-        return base, [base + b for b in bad], out
+        for attempt in range(3):
+            rc, out = coq_eval(pid, f"{name}{base}", "\n".join(body), imports)
+            bad = parse_nat_list(out) if rc == 0 else None
+            if bad is not None:
+                return base, [base + b for b in bad], out
+            # a shard that failed to EVALUATE (not a disagreement): most likely a concurrent `make`
+            # was rewriting an imported .vo; wait for the build lock and try again
+            with Lock("build"):
+                pass
+        return base, None, out
 
     bad_all, logs = [], []
     with ThreadPoolExecutor(max_workers=jobs) as ex:
